@@ -7,7 +7,6 @@ from vlib import gen as G
 
 ID = "C15"
 PROP_FILE = "Props/C15.v"
-THEOREMS = ["C15_get_str_iff", "C15_get_int_iff", "C15_get_bool_iff", "C15_disabled_none", "C15_merge_groups", "C15_nonvacuous"]
 RULE = ("enums with 1-8 variants x kinds; 0-6 properties per variant spread over 1-3 props(..) groups in one or several #[strum] "
         "attributes; keys shared across variants and across the three types, keyword-like keys (type, fn, match, r#raw), keys that "
         "differ only in case or by a prefix; negative and extreme i64 values; repeated keys (first wins); disabled variants. Every "
